@@ -71,6 +71,12 @@ FEATURES = {
     "index_last": ("cmp", "eq", ("idx", A(X, "vals"), -1), A(Y, "a")),
     "call": ("cmp", "eq", ("call", X, "m", (1,)), L(1)),
     "call_attr": ("cmp", "eq", ("call", X, "m", (1,)), A(Y, "b")),
+    # two items indexed out of / two calls on ONE container or callable compared with each other
+    "index_pair_eq": ("cmp", "eq", ("idx", A(X, "vals"), 0), ("idx", A(X, "vals"), 1)),
+    "index_pair_ne": ("cmp", "ne", ("idx", A(X, "vals"), 0), ("idx", A(X, "vals"), -1)),
+    "index_pair_two_vars": ("cmp", "eq", ("idx", A(X, "vals"), 0), ("idx", A(Y, "vals"), 1)),
+    "call_pair_eq": ("cmp", "eq", ("call", X, "m", (1,)), ("call", X, "m", (2,))),
+    "call_pair_ne": ("cmp", "ne", ("call", X, "m", (0,)), ("call", X, "m", (1,))),
     # calls whose arguments are expressions over the same and over another variable
     "call_var_arg": ("cmp", "eq", ("callv", X, "m", (A(Y, "b"),)), L(1)),
     "call_own_arg": ("cmp", "ge", ("callv", X, "m", (A(X, "b"),)), L(2)),
@@ -253,6 +259,12 @@ def cases(tier, seed):
               ("and", ("in", XA, L((1, 2))), ("cmp", "eq", XA, A(Y, "b"))),
               ("and", ("bool", FL), ("exists", "z", ("cmp", "ne", A(Z, "flag"), FL))),
               ("and", ("cmp", "eq", XA, L(1)), ("forall", "z", ("cmp", "le", A(Z, "a"), XA)))]
+    # one CONDITION object at several positions (the if/else idiom and friends)
+    cA, cB, cP, cQ = ("cmp", "eq", XA, L(0)), ("cmp", "lt", A(X, "b"), A(Y, "b")), ("cmp", "eq", A(Y, "b"), L(1)), ("cmp", "eq", A(Y, "a"), L(1))
+    for cc in (cA, cB, ("pred", "SameA", X, Y)):
+        shared += [("or", ("and", cc, cP), ("and", ("not", cc), cQ)), ("and", ("or", cc, cP), ("not", cc)),
+                   ("and", cc, ("and", cP, cc)), ("or", ("and", cP, cc), ("and", cQ, ("not", cc))),
+                   ("and", ("or", cP, cc), ("or", cQ, cc))]
     for c in shared:
         for c2 in (c, ("not", c)):
             for kind, sels in [("entity", (X,)), ("setof", (X, Y)), ("setof", (Y, X)), ("setof", (X, FL)), ("setof", (XA, Y))]:
